@@ -85,7 +85,13 @@ uint64_t F_strlen(char* s) { uint64_t n = 0; while (s[n]) n++; return n; }
 uint32_t F_tolower(uint32_t c) { return (c >= 'A' && c <= 'Z') ? c + 32 : c; }
 uint32_t F_memcmp(char* a, char* b, uint64_t n) { for (uint64_t i = 0; i < n; i++) { unsigned char x = a[i], y = b[i]; if (x != y) return x < y ? (uint32_t)-1 : 1u; } return 0; }
 uint32_t F_bcmp(char* a, char* b, uint64_t n) { return F_memcmp(a, b, n); }
+#ifdef VERIF_STRCMP_BY_IDENTITY
+/* for units whose only strcmp calls compare std::type_info names (type_info::operator==): by the ABI two types have the same mangled name
+   iff they are the same type, and every typeinfo object of this model has its own name object - so name equality is pointer equality */
+uint32_t F_strcmp(char* a, char* b) { return a == b ? 0u : 1u; }
+#else
 uint32_t F_strcmp(char* a, char* b) { uint64_t i = 0; for (;; i++) { unsigned char x = a[i], y = b[i]; if (x != y) return x < y ? (uint32_t)-1 : 1u; if (!x) return 0; } }
+#endif
 void F___assert_fail(char* a, char* b, uint32_t c, char* d) { __CPROVER_assert(0, "VERIF: assert() in code under test failed"); __CPROVER_assume(0); }
 void __VERIF_memcpy(char* d, char* s, uint64_t n) { for (uint64_t i = 0; i < n; i++) d[i] = s[i]; }
 void __VERIF_memmove(char* d, char* s, uint64_t n) { if (d <= s || d >= s + n) { for (uint64_t i = 0; i < n; i++) d[i] = s[i]; } else { for (uint64_t i = n; i > 0; i--) d[i - 1] = s[i - 1]; } }
